@@ -1429,8 +1429,10 @@ class LimitWeights(Algo):
         if len(tw) == 0:
             return True
 
-        # if the limit < equal weight then set weights to 0
-        if self.limit < 1.0 / len(tw):
+        # if the limit < equal weight then set weights to 0 (the second test
+        # is the one ffn.limit_weights applies: for some n, e.g. 49, the float
+        # 1/n passes the first but not the second)
+        if self.limit < 1.0 / len(tw) or 1.0 / self.limit > len(tw):
             tw = {}
         else:
             tw = bt.ffn.limit_weights(tw, self.limit)
